@@ -155,6 +155,18 @@ func init() {
 		leakFamily("method-result-unused", "", `i.to_string();`),
 		leakFamily("list-temporaries", "", `let l = [i, i + 1, i + 2]; y = l[0] + l.len();`),
 		leakFamily("spawn-in-loop", "fn w(x: int) { let z = x + 1; }", `spawn w(i);`),
+		leakFamily("for-list-continue", "", `for e in [1, 2, 3, 4] { if e % 2 == 0 { continue; } y = y + e; }`),
+		leakFamily("for-string", "", `for ch in "abc" { if ch == "b" { continue; } y = y + 1; }`),
+		leakFamily("while-break-nested-block", "", `let k = 0; while k < 5 { k = k + 1; { let t = k * 2; if t > 4 { break; } } }`),
+		leakFamily("return-in-for-in-match", "fn pick(n: int) -> int { match n % 2 { 0 => { for j in 0..5 { if j == 2 { return j; } } 9 }, _ => { 7 } } }", `y = pick(i);`),
+		leakFamily("if-value-in-expression", "", `y = y + if i % 2 == 0 { 1 } else { 2 };`),
+		leakFamily("try-catch-taken-value", "", `y = try { if i % 2 == 0 { throw("x"); } 1 } catch e { 2 };`),
+		leakFamily("builtin-many-args", "", `let s = fmt("%d %d %d %d", i, i + 1, i + 2, i + 3); if s.len() > 100 { y = 1; }`),
+		leakFamily("nested-calls-args", "fn add3(a: int, b: int, c: int) -> int { a + b + c }", `y = add3(add3(i, 1, 2), add3(3, i, 4), add3(5, 6, i));`),
+		leakFamily("continue-in-match-in-loop", "", `let k = 0; while k < 4 { k = k + 1; match k { 2 => { continue; }, _ => { y = y + 1; } } }`),
+		leakFamily("break-in-try-in-loop", "", `let k = 0; loop { k = k + 1; try { if k > 2 { break; } } catch e { y = 0; } }`),
+		leakFamily("object-and-index", "", `let o = new { a: [i, i + 1], b: "s" }; y = o.a[1] + o.b.len();`),
+		leakFamily("option-unwrap", "", `let o = ?i; y = o.unwrap_or(0);`),
 	)
 }
 
